@@ -24,7 +24,7 @@ func (b *cBuilder) MaxLen(quick bool) int {
 	return 6
 }
 
-func newChainBuilder() *cBuilder {
+func newChainBuilder(quick bool) *cBuilder {
 	b := &cBuilder{}
 	for _, c := range []*Call{
 		{Name: "AppendLambda()", Op: "capp", Var: "L"},
@@ -44,6 +44,9 @@ func newChainBuilder() *cBuilder {
 		{Name: "Compile(WithMaxRunSteps(50))", Op: "compile", Opt: "max50"},
 		{Name: "CompileAsSubGraphOfAFreshParent()", Op: "subcompile"},
 	} {
+		if quick && c.Opt == "anypred" {
+			continue // same rule as the AllPredecessor variant (a chain takes no trigger mode): thorough tier only
+		}
 		c.Idx = len(b.calls)
 		b.calls = append(b.calls, c)
 	}
@@ -82,7 +85,7 @@ func (m *cModel) Key() string {
 	s := &m.s
 	switch s.status {
 	case stDead:
-		return fmt.Sprintf("dead|%s|by%d", m.core(), s.deadBy)
+		return fmt.Sprintf("dead|%s|by%d@%d", m.core(), s.deadBy, s.deadPos) // calls made before and after the rejected Compile are not interchangeable
 	case stCompiled:
 		return fmt.Sprintf("compiled|%s|first%d|later%s|%v", m.core(), s.first, s.later, s.touched)
 	case stUnknown:
@@ -102,6 +105,48 @@ func (m *cModel) Tags() string {
 	return t
 }
 
+// appendTo applies an Append* call to the modelled chain.
+func (m *cModel) appendTo(n *cModel, c *Call) {
+	s := &m.s
+	if len(s.pending)+len(s.pendingUnl) > 0 {
+		return // the chain already carries an error: later appends change nothing
+	}
+	var l, u []string
+	switch c.Var {
+	case "Lk":
+		if s.usedK {
+			l = append(l, "duplicate-key")
+		}
+	case "Lend":
+		l = append(l, "reserved-key")
+	case "Lpre":
+		l = append(l, "state-handler-without-state")
+	case "Par1":
+		u = append(u, "parallel-of-one-node")
+	case "ParDup":
+		u = append(u, "parallel-duplicate-output-key")
+	case "Br1":
+		l = append(l, "single-target-branch")
+	case "BrDup":
+		l = append(l, "duplicate-key")
+	}
+	if s.multi && (strings.HasPrefix(c.Var, "Par") || strings.HasPrefix(c.Var, "Br")) {
+		u = append(u, "parallel-or-branch-after-several-open-ends")
+	}
+	if len(l)+len(u) > 0 {
+		n.s.pending, n.s.pendingUnl = l, u
+		return
+	}
+	if n.s.elems != "" {
+		n.s.elems += ","
+	}
+	n.s.elems += c.Var
+	n.s.multi = c.Var == "Par2" || c.Var == "Br2"
+	if c.Var == "Lk" {
+		n.s.usedK = true
+	}
+}
+
 func (m *cModel) Step(c *Call) (Model, Expect, bool) {
 	s := &m.s
 	if s.status == stUnknown {
@@ -111,6 +156,11 @@ func (m *cModel) Step(c *Call) (Model, Expect, bool) {
 	n.s.depth++
 	switch s.status {
 	case stDead:
+		// Append* has no error result: the model keeps following the calls (the implementation does not make a
+		// rejected Compile final), so that a later accepted Compile can be compared with a fresh construction
+		if c.Op == "capp" {
+			m.appendTo(n, c)
+		}
 		return n, Expect{HasErr: c.IsCompile(), V: vReject, From: stDead, DeadPos: s.deadPos, DeadCompile: true, DeadRules: s.deadRules, DeadOp: "compile"}, true
 	case stCompiled:
 		if c.IsCompile() {
@@ -121,45 +171,8 @@ func (m *cModel) Step(c *Call) (Model, Expect, bool) {
 		return n, Expect{HasErr: false, From: stCompiled}, true
 	}
 	if c.Op == "capp" {
-		e := Expect{HasErr: false, V: vAccept, From: stLive}
-		if len(s.pending)+len(s.pendingUnl) > 0 {
-			return n, e, true // the chain already carries an error: later appends change nothing
-		}
-		var l, u []string
-		switch c.Var {
-		case "Lk":
-			if s.usedK {
-				l = append(l, "duplicate-key")
-			}
-		case "Lend":
-			l = append(l, "reserved-key")
-		case "Lpre":
-			l = append(l, "state-handler-without-state")
-		case "Par1":
-			u = append(u, "parallel-of-one-node")
-		case "ParDup":
-			u = append(u, "parallel-duplicate-output-key")
-		case "Br1":
-			l = append(l, "single-target-branch")
-		case "BrDup":
-			l = append(l, "duplicate-key")
-		}
-		if s.multi && (strings.HasPrefix(c.Var, "Par") || strings.HasPrefix(c.Var, "Br")) {
-			u = append(u, "parallel-or-branch-after-several-open-ends")
-		}
-		if len(l)+len(u) > 0 {
-			n.s.pending, n.s.pendingUnl = l, u
-			return n, e, true
-		}
-		if n.s.elems != "" {
-			n.s.elems += ","
-		}
-		n.s.elems += c.Var
-		n.s.multi = c.Var == "Par2" || c.Var == "Br2"
-		if c.Var == "Lk" {
-			n.s.usedK = true
-		}
-		return n, e, true
+		m.appendTo(n, c)
+		return n, Expect{HasErr: false, V: vAccept, From: stLive}, true
 	}
 	// compile
 	listed := append([]string{}, s.pending...)
